@@ -204,6 +204,39 @@ def run(ctx):
                                 ctx.violation('recombine-wrong GF(%d^%d) t=%d m=%d' % (p, d, t, m),
                                               {'field': [p, d], 't': t, 'm': m, 'secrets': ss, 'tape': tape,
                                                'subset': list(I), 'x_r': xr, 'got': str(got[h]), 'want': str(want)})
+                if have_np and hasattr(thresha, 'np_random_split'):
+                    # array variants on the same tape (np_random_split draws all coefficients of all secrets in one sweep:
+                    # draw number j*n + h is the coefficient of X^(j+1) of secret h, i.e. c[t-1-j] of the list variant)
+                    # must give the same shares and recombine alike
+                    tape_np = [tape[h * t + (t - 1 - j)] for j in range(t) for h in range(n)]
+                    thresha.secrets = Tape(tape_np)
+                    try:
+                        npsh = thresha.np_random_split(F, F.array([F(x).value for x in ss], check=False), t, m)
+                    finally:
+                        thresha.secrets = _secrets
+                    for i in range(m):
+                        for h in range(n):
+                            a, b = npsh[i][h], sh[i][h]
+                            a = a if isinstance(a, F) else F(a)
+                            b = b if isinstance(b, F) else F(b)
+                            nx += 1
+                            if a != b:
+                                ctx.violation('np_random_split-differs-from-random_split GF(%d^%d) t=%d m=%d' % (p, d, t, m),
+                                              {'field': [p, d], 't': t, 'm': m, 'secrets': ss, 'tape': tape, 'party': i,
+                                               'np_share': str(a), 'list_share': str(b)})
+                    if t < m:
+                        I = tuple(range(m - t - 1, m))
+                        pts = [(i + 1, npsh[i]) for i in I]
+                        for xr in (0, m + 1):
+                            got = thresha.np_recombine(F, pts, xr)
+                            for h in range(n):
+                                want = poly_value(F, ss[h], tape[h * t:(h + 1) * t], xr)
+                                g = got[h] if isinstance(got[h], F) else F(got[h])
+                                nx += 1
+                                if g != want:
+                                    ctx.violation('np_recombine-wrong GF(%d^%d) t=%d m=%d' % (p, d, t, m),
+                                                  {'field': [p, d], 't': t, 'm': m, 'secrets': ss, 'tape': tape, 'subset': list(I),
+                                                   'x_r': xr, 'got': str(g), 'want': str(want)})
                 ctx.case({'ext': [p, d], 't': t, 'm': m, 'ss': ss, 'tape': tape}, nontrivial=t >= 1, kind='GF(p^d)')
     ctx.extra['extension_field_oracle_checks'] = nx
     ctx.notes.append('extension/binary fields: property oracle on the implementation only; the Coq theorems cover them '
